@@ -617,7 +617,10 @@ pub fn run(ctx: &mut Ctx) {
     let mut cases = Vec::new();
     for kq in 1..=200u32 {
         for &hz_base in &HZ_BASES {
-            for ctor in [Ctor::FromHzToHz, Ctor::SignalFromHz, Ctor::SetHzToHz] {
+            for ctor in [Ctor::FromHzToHz, Ctor::SignalFromHz, Ctor::SetHzToHz, Ctor::SetPlayback, Ctor::MulHz, Ctor::ScalePlayback] {
+                if !matches!(ctor, Ctor::FromHzToHz | Ctor::SignalFromHz | Ctor::SetHzToHz) && hz_base != 1024 {
+                    continue; // the rate pair only matters for the hz-pair entry points
+                }
                 for (lin, quarter) in [(false, false), (true, false), (false, true), (true, true)] {
                     let p = if quarter { kq as f64 / 4.0 } else { kq as f64 };
                     cases.push(Case { ft: if lin { FT::F64 } else { FT::I16 }, interp: if lin { Interp::Linear } else { Interp::Floor }, src_len: None, ctor, params: vec![p.to_bits()], outputs: 9, exact: true, drain: false, hz_base });
